@@ -2056,8 +2056,7 @@ func (d *DFA) IsMatchReverse(cache *DFACache, haystack []byte, start, end int) b
 
 	currentState := d.getStartStateForReverse(cache, haystack, end)
 	if currentState == nil {
-		_, _, matched := d.pikevm.Search(haystack[start:end])
-		return matched
+		return d.nfaFallbackReverse(haystack, start, end) >= 0
 	}
 
 	// With 1-byte match delay, start states are never match states.
@@ -2084,16 +2083,14 @@ func (d *DFA) IsMatchReverse(cache *DFACache, haystack []byte, start, end int) b
 		case InvalidState:
 			currentState = cache.getState(sid)
 			if currentState == nil {
-				_, _, matched := d.pikevm.Search(haystack[start:end])
-				return matched
+				return d.nfaFallbackReverse(haystack, start, end) >= 0
 			}
 			nextState, err := d.determinize(cache, currentState, b)
 			if err != nil {
 				if isCacheCleared(err) {
 					currentState = d.getStartStateForReverse(cache, haystack, at+1)
 					if currentState == nil {
-						_, _, matched := d.pikevm.Search(haystack[start:end])
-						return matched
+						return d.nfaFallbackReverse(haystack, start, end) >= 0
 					}
 					sid = currentState.id
 					ft = cache.flatTrans
@@ -2101,8 +2098,7 @@ func (d *DFA) IsMatchReverse(cache *DFACache, haystack []byte, start, end int) b
 					at++ // Will be decremented by for-loop
 					continue
 				}
-				_, _, matched := d.pikevm.Search(haystack[start:end])
-				return matched
+				return d.nfaFallbackReverse(haystack, start, end) >= 0
 			}
 			if nextState == nil {
 				return false
@@ -2168,12 +2164,51 @@ func (d *DFA) getStartStateForReverse(cache *DFACache, haystack []byte, end int)
 	return insertedState
 }
 
-// nfaFallbackReverse handles NFA fallback for reverse search.
+// nfaFallbackReverse answers a reverse search without the transition cache.
+//
+// The automaton of a reverse DFA reads its input backwards, so it cannot be
+// handed to the PikeVM over the forward bytes (a multi-byte rune would be read
+// in the wrong order: \pL+$ lost its match on "\uCAC1" when the start set
+// exceeded the determinization limit). This walks haystack[start:end] from the
+// end exactly like the cached loops do - same start set, same move operation,
+// same one-byte match delay - but keeps only the current NFA state set, so
+// neither the cache capacity nor the determinization limit applies.
+// Returns the smallest match start, or -1.
 func (d *DFA) nfaFallbackReverse(haystack []byte, start, end int) int {
-	// For reverse fallback, we need to search the region and find match start
-	matchStart, _, matched := d.pikevm.Search(haystack[start:end])
-	if !matched {
+	builder := NewBuilderWithWordBoundary(d.nfa, d.config, d.hasWordBoundary)
+
+	kind := StartText
+	if end < len(haystack) {
+		kind = NewStartTable().GetKind(haystack[end])
+	}
+	startState, _ := ComputeStartStateWithStride(builder, d.nfa, StartConfig{Kind: kind, Anchored: false}, d.AlphabetLen())
+	if startState == nil {
 		return -1
 	}
-	return start + matchStart
+	current := startState.NFAStates()
+	fromWord := startState.IsFromWord()
+
+	lastMatch := -1
+	for at := end - 1; at >= start; at-- {
+		b := haystack[at]
+		if d.hasEndLine && b == '\n' {
+			current = builder.epsilonClosure(current, LookEndLine)
+		}
+		// 1-byte match delay: the state entered on this byte is a match state
+		// iff the state it is entered from contains an NFA match.
+		if builder.containsMatchState(current) {
+			lastMatch = at + 1
+		}
+		current = builder.moveWithWordContextBreak(current, b, fromWord, false)
+		if len(current) == 0 {
+			return lastMatch
+		}
+		fromWord = isWordByte(b)
+	}
+
+	// EOI for reverse: delayed match at the region start
+	if containsNFAMatch(d.nfa, current) {
+		lastMatch = start
+	}
+	return lastMatch
 }
